@@ -104,19 +104,56 @@ def known_files(st, cname):
     return out
 
 
+def cover_in(reg, k, a):
+    """The registry value `reg` maps key k to the collection object at address a."""
+    return z3.And(bs.dict_has(reg, k), bs.dict_get(reg, k) == VRef(a))
+
+
+def inv_cover(eng, st, cn, f):
+    """Inv.cover at file f: if f has a buffer entry then a collection bound to f is registered — the ghost witness
+    recorded for f in st.ghost['covers'], or one of the known root objects of the class."""
+    b = Buf(eng, st, cn)
+    alts = []
+    cov = st.ghost.get("covers", {}).get(f.get_id())
+    if cov is not None:
+        alts.append(z3.And(cover_in(b.reg, cov[1], cov[2]), z3.Select(st.g["NodeFile"], cov[2]) == f))
+    for a, rec in st.objs.items():
+        if rec.tag.startswith("node") and rec.cls.name == cn and not isinstance(rec.fields.get("_root"), ObjV):
+            alts.append(z3.And(to_val(rec.fields["_filename"]) == f, cover_in(b.reg, VInt(z3.IntVal(a)), z3.IntVal(a))))
+    return z3.Implies(b.has(f), smt.or_(alts))
+
+
 class FlushBufferContract(Contract):
     """FileBufferedCollection._flush_buffer(cls, force=False, retain_in_force=False).
 
-    ASSUMED at call sites (its body — a `while True` over popitem() of the registry — is covered by the bounded
-    buffer sweep, see evidence `bounded`).  Clauses, pointwise per file f (instantiated at the files of the known
-    objects and the Skolem files):
-      force:   afterwards the reported size is 0; (serialized) f has no entry, (shared) f's entry is unmodified;
+    PROVED against its body (props/buffers.check_flush_buffer_def: `while True` over registry.popitem() with the
+    sidecar invariant FlushBufferLoop; the popped collections are objects of unknown identity whose _flush is the
+    FlushContract, itself proved against each class's real _flush) from a state satisfying Inv.cover / Inv.registry;
+    `requires` (Inv.cover at the caller's files; the shared strategy retains on a forced flush) is checked at every
+    call site.  Only the two size clauses rest on the paper lemma [L-SUM].
+    Clauses, pointwise per file f (call sites: the files of the known objects and the Skolem files; definition: a
+    Skolem file), none of them claimed for a file at which an injected I/O fault was recorded:
+      force:   afterwards the reported size is 0 [L-SUM]; (serialized) f has no entry, (shared) f's entry is unmodified;
                a modified, non-conflicting copy was written:  Res'[f] == L(f)  (Python ==);
                an unmodified copy was not written:  FS'[f] == FS[f];
       raises BufferedError only if some flushed file was modified and conflicting."""
     name = "FileBufferedCollection._flush_buffer"
     params = ("cls", "force", "retain_in_force")
     defaults = {"force": False, "retain_in_force": False}
+
+    def requires(self, cx):
+        """Inv.cover at the files the caller's state talks about; the shared-memory strategy passes
+        retain_in_force=True (entries stay in the buffer after a forced flush, so their collections must stay
+        registered)."""
+        if "NodeFile" not in cx.pre.g:
+            return []
+        cn = cx.b["cls"].ci.name
+        # (nothing is required - and nothing was promised - about a file for which an I/O fault has been recorded)
+        out = [("Inv.cover", z3.Implies(z3.Not(z3.Select(cx.pre.g["IoFault"], f)), inv_cover(cx.eng, cx.pre, cn, f)))
+               for f in known_files(cx.pre, cn)]
+        if Buf(cx.eng, cx.pre, cn).strategy == "shared":
+            out.append(("forced-shared-flush-retains", z3.Implies(flag(cx.b["force"]), flag(cx.b["retain_in_force"]))))
+        return out
 
     def cases(self, cx):
         def cname(c):
@@ -133,6 +170,8 @@ class FlushBufferContract(Contract):
             locs = [("g", n) for n in ("Cell", "View", "CView", "Alloc", "Res", "Wr", "FS", "Meta", "FsTick") if n in c.pre.g]
             locs += [("g", n) for n in c.pre.g if n.startswith("LockDom:")]
             locs += [("static", cn, "_CURRENT_BUFFER_SIZE"), ("static", cn, "_buffered_collections")]
+            if "IoFault" in c.pre.g:
+                locs.append(("g", "IoFault"))
             for a, rec in c.pre.objs.items():
                 if rec.tag.startswith("node") and "_data" in rec.fields:
                     locs.append(("field", a, "_data"))
@@ -143,34 +182,53 @@ class FlushBufferContract(Contract):
             bp, bq = Buf(c.eng, c.pre, cn), Buf(c.eng, c.post, cn)
             out = []
             from props.buffers import stat_value
-            for f in known_files(c.pre, cn):
+            files = known_files(c.pre, cn) if c.mode == "assume" else list(c.pre.ghost.get("skolem_files", []))
+            for f in files:
                 had, changed = bp.has(f), bp.changed(f)
+                nofault = z3.Not(z3.Select(c.post.g["IoFault"], f)) if "IoFault" in c.post.g else z3.BoolVal(True)
                 conflict = z3.Not(pyeq(bp.field(f, K_METADATA), stat_value(c.pre, f)))
                 L = bp.logical(f)
                 if not raised:
                     out.append(("C07:no-silent-overwrite", z3.Implies(forced(c), z3.Not(z3.And(had, changed, conflict)))))
+                P = lambda *xs: z3.And(nofault, *xs)      # nothing is claimed about a file hit by an I/O fault
                 out.append(("C15:forced-flush-loses-nothing",
-                            z3.Implies(z3.And(forced(c), had, changed, z3.Not(conflict)), pyeq(c.post.sel("Res", f), L))))
+                            z3.Implies(z3.And(forced(c), had, changed, z3.Not(conflict), nofault), pyeq(c.post.sel("Res", f), L))))
+                if not raised and "IoFault" in c.post.g:
+                    out.append(("normal-return-means-no-fault", z3.Implies(z3.Not(z3.Select(c.pre.g["IoFault"], f)), nofault)))
+                cov = c.pre.ghost.get("covers", {}).get(f.get_id())
+                if cov is not None and c.mode == "prove":
+                    # Inv.cover re-established: a file that still has an entry still has a registered collection
+                    k_c, a_c = cov[1], cov[2]
+                    out.append(("Inv.cover:kept", z3.Implies(P(bq.has(f)), cover_in(bq.reg, k_c, a_c))))
+                elif c.mode == "assume" and "NodeFile" in c.pre.g:
+                    # (the cover that satisfied `requires` is still registered if the entry is still there)
+                    ip, iq = inv_cover(c.eng, c.pre, cn, f), inv_cover(c.eng, c.post, cn, f)
+                    out.append(("Inv.cover:kept", z3.Implies(nofault, iq)))
                 out.append(("C17:unmodified-not-written",
-                            z3.Implies(z3.And(had, z3.Not(changed)), z3.And(c.post.sel("FS", f) == c.pre.sel("FS", f),
+                            z3.Implies(P(had, z3.Not(changed)), z3.And(c.post.sel("FS", f) == c.pre.sel("FS", f),
                                                                            c.post.sel("Res", f) == c.pre.sel("Res", f)))))
                 out.append(("C07:conflicting-not-written",
-                            z3.Implies(z3.And(had, changed, conflict), z3.And(c.post.sel("FS", f) == c.pre.sel("FS", f),
+                            z3.Implies(P(had, changed, conflict), z3.And(c.post.sel("FS", f) == c.pre.sel("FS", f),
                                                                             c.post.sel("Res", f) == c.pre.sel("Res", f)))))
-                out.append(("C05:absent-untouched", z3.Implies(z3.Not(had), z3.And(z3.Not(bq.has(f)),
+                out.append(("C05:absent-untouched", z3.Implies(P(z3.Not(had)), z3.And(z3.Not(bq.has(f)),
                                                                                   c.post.sel("FS", f) == c.pre.sel("FS", f),
                                                                                   c.post.sel("Res", f) == c.pre.sel("Res", f)))))
                 if bp.strategy == "serialized":
-                    out.append(("C15:forced-entries-dropped", z3.Implies(forced(c), z3.Not(bq.has(f)))))
+                    out.append(("C15:forced-entries-dropped", z3.Implies(P(forced(c)), z3.Not(bq.has(f)))))
                 else:
-                    out.append(("C15:forced-entries-clean", z3.Implies(z3.And(forced(c), had),
+                    out.append(("C15:forced-entries-clean", z3.Implies(P(forced(c), had),
                                                                        z3.And(bq.has(f), z3.Not(bq.modified(f)),
                                                                               bq.wellformed(f),
                                                                               bq.field(f, K_CONTENTS) == bp.field(f, K_CONTENTS)))))
             for t in c.pre.ghost.get("foreign_cells", []):
                 out.append(("frame:foreign-container", c.post.sel("Cell", t) == c.pre.sel("Cell", t)))
-            out.append(("C15:size-zero-after-forced-flush", z3.Implies(forced(c), bq.size == 0)))
-            out.append(("size-nonnegative", bq.size >= 0))
+            if c.mode == "assume":
+                # [L-SUM] (paper): Inv.size  size == sum over files of contrib(f);  every iteration keeps it (the
+                # FlushContract clause C15:size-tracks-this-file + other-entries-untouched), and after a forced flush
+                # no file contributes (C15:forced-entries-dropped / forced-entries-clean, proved pointwise): size == 0
+                c.eng.note("[L-SUM]")
+                out.append(("C15:size-zero-after-forced-flush", z3.Implies(forced(c), bq.size == 0)))
+                out.append(("size-nonnegative", bq.size >= 0))
             out.append(("alloc", c.post.g["Alloc"] >= c.pre.g["Alloc"]))
             out.append(("registry-is-a-container", z3.BoolVal(True)))
             out.append(("C10:lock-tables-only-grow", core.locks_monotone(c)))
@@ -196,11 +254,363 @@ class FlushBufferContract(Contract):
                 c.exc.attrs["files"] = Z(smt.fresh("issues"), None, {"plain": True})
             return per_file(c, True)
 
+        def post_fault(c):
+            if c.mode == "assume":
+                c.post.event("io-fault", "_flush_buffer")
+                c.post.event("flush-buffer-error", cname(c), forced(c))
+                cn = cname(c)
+                ra = smt.fresh("regaddr'", IntS)
+                c.post.assume(ra >= c.pre.g["Alloc"], ra < c.post.g["Alloc"])
+                c.post.statics[(cn, "_buffered_collections")] = Z(VRef(ra), "dict", {"static": (cn, "_buffered_collections")})
+            out = [("alloc", c.post.g["Alloc"] >= c.pre.g["Alloc"]), ("C10:lock-tables-only-grow", core.locks_monotone(c))]
+            if c.mode == "assume" and "IoFault" in c.post.g:
+                # ghost bookkeeping: after an environment fault nothing is claimed about any file
+                for f in known_files(c.pre, cname(c)):
+                    c.post.upd("IoFault", f, z3.BoolVal(True))
+            for t in c.pre.ghost.get("foreign_cells", []):
+                out.append(("frame:foreign-container", c.post.sel("Cell", t) == c.pre.sel("Cell", t)))
+            return out
+
         return [
             Case("flushed", "normal", modifies=mod, post=post_ok, result=lambda c: Const(None)),
             Case("issues", "raise", modifies=mod, post=post_err, exc=("BufferedError",)),
+            # an exception of a collection's flush that is neither OSError nor MetadataError (an unreadable file
+            # met while re-loading) leaves the loop: environment fault, nothing is claimed
+            Case("fault", "raise", modifies=mod, post=post_fault, exc=("ValueError", "TypeError")),
         ]
+
+
+# =================================================================================================
+# _flush of ONE collection (known object, or a member of the registry of unknown identity)
+def stat_of(st, fn):
+    from props.buffers import stat_value
+    return stat_value(st, fn)
+
+
+def recv_info(c, st, v):
+    """File, buffered flag and address of a buffered root collection: a known object or a registry member whose
+    attributes are ghost functions of its address (NodeFile, NodeBuf)."""
+    if isinstance(v, ObjV):
+        rec = st.rec(v)
+        cn = rec.cls.name
+        f = to_val(rec.fields["_filename"])
+        bobj = as_int(st.rec(rec.fields["buffered"]).fields["_count"])
+        n = z3.IntVal(v.addr)
+    else:
+        cn = v.meta["registered_of"]
+        n = Val.addr(v.term)
+        f = z3.Select(st.g["NodeFile"], n)
+        bobj = z3.Select(st.g["NodeBuf"], n)
+    bctx = as_int(st.rec(st.statics[(cn, "_buffer_context")]).fields["_count"])
+    return dict(cname=cn, f=f, buffered=z3.Or(bobj > 0, bctx > 0), n=n, known=isinstance(v, ObjV), obj=v)
+
+
+def flag(v):
+    if isinstance(v, Const):
+        return z3.BoolVal(bool(v.v))
+    return v.term if isinstance(v, Bv) else truthy(to_val(v))
+
+
+def entry_same(bp, bq, g):
+    """File g has the same buffer entry (same entry object with the same content) in both states."""
+    return z3.And(bq.has(g) == bp.has(g),
+                  z3.Implies(bp.has(g), z3.And(bs.dict_get(bq.B, g) == bs.dict_get(bp.B, g), bq.entry(g) == bp.entry(g))))
+
+
+def file_same(pre, post, g):
+    return z3.And(post.sel("FS", g) == pre.sel("FS", g), post.sel("Res", g) == pre.sel("Res", g),
+                  post.sel("Meta", g) == pre.sel("Meta", g), post.sel("Wr", g) == pre.sel("Wr", g))
+
+
+def settled(bp, bq, f, forced):
+    """What a flush of file f leaves in the buffer: no entry - or, for a forced flush of the shared-memory buffer,
+    the same entry marked clean."""
+    if bp.strategy == "serialized":
+        return z3.Not(bq.has(f))
+    clean = z3.And(bq.has(f), z3.Not(bq.modified(f)), bq.wellformed(f), bs.dict_get(bq.B, f) == bs.dict_get(bp.B, f),
+                   bq.field(f, K_CONTENTS) == bp.field(f, K_CONTENTS))
+    return z3.If(forced, clean, z3.Not(bq.has(f)))
+
+
+class FlushContract(Contract):
+    """X._flush(self, force=False) of a file-buffered root collection bound to file f.  Cases by the PRE state:
+       noop       still buffered and not forced                       nothing changes
+       absent     f has no entry                                      buffer and files unchanged
+       unchanged  entry not changed since it was read                 nothing written; entry settled
+       written    entry changed, metadata still current               Res'[f] == L(f)  (Python ==); entry settled
+       conflict   entry changed, file changed outside                 MetadataError(f); nothing written; entry settled
+       fault      environment fault (I/O error, unreadable file)      entry settled; other files / entries kept
+    In every case: size delta == contribution delta of f; entries, files and contents of OTHER files untouched;
+    registry and foreign containers untouched."""
+    name = "_flush"
+    params = ("self", "force")
+    defaults = {"force": False}
+    manages_cview = True          # CView is in `modifies` and framed by the post clauses themselves
+
+    def cases(self, cx):
+        def R(c):
+            return recv_info(c, c.pre, c.b["self"])
+
+        def forced(c):
+            return flag(c.b["force"])
+
+        def flushes(c):
+            return z3.Or(z3.Not(R(c)["buffered"]), forced(c))
+
+        def bufs(c):
+            cn = R(c)["cname"]
+            return Buf(c.eng, c.pre, cn), Buf(c.eng, c.post, cn)
+
+        def had(c):
+            return bufs(c)[0].has(R(c)["f"])
+
+        def changed(c):
+            return bufs(c)[0].changed(R(c)["f"])
+
+        def conflict(c):
+            bp = bufs(c)[0]
+            f = R(c)["f"]
+            return z3.Not(pyeq(bp.field(f, K_METADATA), stat_of(c.pre, f)))
+
+        def mod(c):
+            cn = R(c)["cname"]
+            locs = [("g", n) for n in ("Cell", "View", "CView", "Alloc", "Res", "Wr", "FS", "Meta", "FsTick") if n in c.pre.g]
+            locs += [("g", n) for n in c.pre.g if n.startswith("LockDom:")]
+            locs += [("static", cn, "_CURRENT_BUFFER_SIZE")]
+            if "IoFault" in c.pre.g:
+                locs.append(("g", "IoFault"))
+            if R(c)["known"]:
+                locs.append(("field", c.b["self"].addr, "_data"))
+            return locs
+
+        def common(c):
+            r = R(c)
+            f = r["f"]
+            bp, bq = bufs(c)
+            pre, post = c.pre, c.post
+            out = [("C15:size-tracks-this-file", bq.size - bp.size == bq.contrib(f) - bp.contrib(f)),
+                   ("buffer-object-kept", bq.ba == bp.ba),
+                   ("registry-kept", z3.And(bq.ra == bp.ra, bq.reg == bp.reg)),
+                   ("alloc", post.g["Alloc"] >= pre.g["Alloc"]),
+                   ("C10:lock-tables-only-grow", core.locks_monotone(c))]
+            for g in pre.ghost.get("skolem_files", []):
+                out.append(("frame:other-entries-untouched", z3.Implies(g != f, entry_same(bp, bq, g))))
+                out.append(("frame:other-files-untouched", z3.Implies(z3.And(g != f, smt.known_name(g)), file_same(pre, post, g))))
+                if bp.strategy == "shared":
+                    ca = Val.addr(bp.field(g, K_CONTENTS))
+                    out.append(("frame:other-contents-untouched",
+                                z3.Implies(z3.And(g != f, bp.has(g)), post.sel("CView", ca) == pre.sel("CView", ca))))
+                if "IoFault" in pre.g:
+                    out.append(("frame:other-faults", z3.Implies(g != f, z3.Select(post.g["IoFault"], g) == z3.Select(pre.g["IoFault"], g))))
+            for t in list(pre.ghost.get("foreign_cells", [])):
+                out.append(("frame:foreign-container", post.sel("Cell", t) == pre.sel("Cell", t)))
+            return out
+
+        def nofault(c):
+            if "IoFault" in c.pre.g:
+                f = R(c)["f"]
+                return [("no-fault-recorded", z3.Select(c.post.g["IoFault"], f) == z3.Select(c.pre.g["IoFault"], f))]
+            return []
+
+        def post_absent(c):
+            bp, bq = bufs(c)
+            pre, post = c.pre, c.post
+            return [("absent:buffer-unchanged", z3.And(bq.B == bp.B, bq.size == bp.size)),
+                    ("absent:no-file-effect", z3.And(post.g["FS"] == pre.g["FS"], post.g["Res"] == pre.g["Res"],
+                                                     post.g["Wr"] == pre.g["Wr"], post.g["Meta"] == pre.g["Meta"]))] \
+                + nofault(c) + common(c)
+
+        def post_unchanged(c):
+            bp, bq = bufs(c)
+            pre, post = c.pre, c.post
+            f = R(c)["f"]
+            return [("C17:unchanged-copy-not-written", z3.And(post.g["FS"] == pre.g["FS"], post.g["Res"] == pre.g["Res"],
+                                                              post.g["Wr"] == pre.g["Wr"], post.g["Meta"] == pre.g["Meta"])),
+                    ("C07:entry-settled", settled(bp, bq, f, forced(c)))] + nofault(c) + common(c)
+
+        def post_written(c):
+            bp, bq = bufs(c)
+            f = R(c)["f"]
+            return [("C06:changed-copy-written-from-the-entry", pyeq(c.post.sel("Res", f), bp.logical(f))),
+                    ("C07:entry-settled", settled(bp, bq, f, forced(c)))] + nofault(c) + common(c)
+
+        def post_conflict(c):
+            bp, bq = bufs(c)
+            pre, post = c.pre, c.post
+            f = R(c)["f"]
+            fnattr = c.exc.attrs.get("filename") if c.mode == "prove" else None
+            out = [("C07:outside-content-kept", z3.And(post.g["FS"] == pre.g["FS"], post.g["Res"] == pre.g["Res"],
+                                                       post.g["Wr"] == pre.g["Wr"], post.g["Meta"] == pre.g["Meta"])),
+                   ("C07:entry-settled", settled(bp, bq, f, forced(c)))]
+            if c.mode == "prove":
+                out.append(("C07:error-names-the-file", (to_val(fnattr) == f) if fnattr is not None else z3.BoolVal(False)))
+            else:
+                c.exc.attrs["filename"] = Z(f, "str", {"plain": True})
+            return out + nofault(c) + common(c)
+
+        def post_fault(c):
+            if c.mode == "assume":
+                c.post.event("io-fault", "_flush")
+                if "IoFault" in c.post.g:
+                    c.post.upd("IoFault", R(c)["f"], z3.BoolVal(True))
+            return common(c)
+
+        def post_noop(c):
+            bp, bq = bufs(c)
+            f = R(c)["f"]
+            pre, post = c.pre, c.post
+            return [("noop:buffer-unchanged", z3.And(bq.B == bp.B, bq.size == bp.size, entry_same(bp, bq, f))),
+                    ("noop:no-file-effect", z3.And(post.g["FS"] == pre.g["FS"], post.g["Res"] == pre.g["Res"],
+                                                   post.g["Wr"] == pre.g["Wr"], post.g["Meta"] == pre.g["Meta"]))] \
+                + nofault(c) + common(c)
+
+        def mod_noop(c):
+            # the shared-memory strategy rebuilds the object's own data (it stops sharing the buffered container)
+            return [m for m in mod(c) if m[0] != "g" or m[1] in ("Cell", "View", "CView", "Alloc") or m[1].startswith("LockDom:")]
+
+        return [
+            Case("noop", "normal", guard=lambda c: z3.Not(flushes(c)), modifies=mod_noop, post=post_noop,
+                 result=lambda c: Const(None)),
+            Case("absent", "normal", guard=lambda c: z3.And(flushes(c), z3.Not(had(c))), modifies=mod, post=post_absent,
+                 result=lambda c: Const(None)),
+            Case("unchanged", "normal", guard=lambda c: z3.And(flushes(c), had(c), z3.Not(changed(c))), modifies=mod,
+                 post=post_unchanged, result=lambda c: Const(None)),
+            Case("written", "normal", guard=lambda c: z3.And(flushes(c), had(c), changed(c), z3.Not(conflict(c))),
+                 modifies=mod, post=post_written, result=lambda c: Const(None)),
+            Case("conflict", "raise", guard=lambda c: z3.And(flushes(c), had(c), changed(c), conflict(c)), modifies=mod,
+                 post=post_conflict, exc=("MetadataError",)),
+            Case("fault", "raise", guard=lambda c: flushes(c), modifies=mod, post=post_fault,
+                 exc=("OSError", "ValueError", "TypeError")),
+        ]
+
+
+# =================================================================================================
+# the loop of _flush_buffer
+from pyvc.loops import LoopSpec
+
+
+def member_facts(eng, st, cn, v):
+    """Inv.registry: a value of cls._buffered_collections is a root collection object of exactly that class, with a
+    file name the program holds; it is none of the buffer's own container objects."""
+    a = Val.addr(v)
+    b = Buf(eng, st, cn)
+    f = z3.Select(st.g["NodeFile"], a)
+    return z3.And(smt.is_VRef(v), a > 1000, a < st.g["Alloc"], a != b.ba, a != b.ra,
+                  smt.ClsOf(a) == z3.IntVal(smt.tid_of(cn)), smt.is_VStr(f), smt.known_name(f),
+                  z3.Select(st.g["NodeBuf"], a) >= 0)
+
+
+class FlushBufferLoop(LoopSpec):
+    """`while True: (col_id, collection) = registry.popitem() ... collection._flush(force)` of _flush_buffer.
+    Pointwise at a Skolem file f0 (E = state at function entry, S = now, R = the registry dict, had / changed /
+    conflict / L evaluated in E):
+      untouched(f0)  f0's entry, file, (shared) contents view and fault flag are exactly as in E
+      done(f0)       f0's entry is settled (gone; or, forced shared flush, the same entry marked clean), an
+                     unchanged / conflicting / absent copy left the file alone, a conflicting one is recorded in
+                     `issues`, a changed non-conflicting one was written from the entry (unless an I/O fault hit f0)
+      INV  untouched(f0) or done(f0);   forced and had and not done(f0) => cover(f0) is still in R;
+           f0 still has an entry and cover(f0) was popped => cover(f0) is in remaining_collections;
+           a fault at f0 is recorded in `issues`."""
+    def prepare(self, L, st):
+        st.ghost["fn_entry"] = st.copy()
+
+    def parts(self, L, st):
+        E = st.ghost["fn_entry"]
+        cls = st.loc["cls"]
+        cn = cls.ci.name
+        bE, bS = Buf(L.eng, E, cn), Buf(L.eng, st, cn)
+        forced = flag(st.loc["force"])
+        retain = flag(st.loc["retain_in_force"])
+        return E, cn, bE, bS, forced, retain
+
+    def havoc(self, L, st):
+        for n in list(st.g):
+            if n in ("Cell", "View", "CView", "Alloc", "Res", "Wr", "FS", "Meta", "FsTick", "IoFault") or n.startswith("LockDom:"):
+                st.g[n] = smt.fresh(n + "~", st.g[n].sort())
+        cn = st.loc["cls"].ci.name
+        st.statics[(cn, "_CURRENT_BUFFER_SIZE")] = Iv(smt.fresh("size~", IntS))
+        for nme in ("remaining_collections", "issues"):
+            old = st.loc[nme]
+            st.loc[nme] = Z(smt.fresh(nme + "~"), None, {"fresh_container": True})
+
+    def invariant(self, L, st, vis):
+        E, cn, bE, bS, forced, retain = self.parts(L, st)
+        out = []
+        rem, iss = st.loc["remaining_collections"].term, st.loc["issues"].term
+        T_DICT = z3.IntVal(smt.tid_of("dict"))
+        out.append(("locals-are-dicts", z3.And(smt.tyof(rem) == T_DICT, smt.tyof(iss) == T_DICT)))
+        out.append(("alloc-monotone", st.g["Alloc"] >= E.g["Alloc"]))
+        for t in E.ghost.get("foreign_cells", []):
+            out.append(("foreign-container-kept", st.sel("Cell", t) == E.sel("Cell", t)))
+        for nme in E.g:
+            if nme.startswith("LockDom:"):
+                for k in E.ghost.get("skolem_res", []):
+                    out.append((f"lock-table-grows:{nme[8:]}", z3.Implies(z3.Select(E.g[nme], k), z3.Select(st.g[nme], k))))
+        R = bS.reg
+        for f0 in E.ghost.get("skolem_files", []):
+            (_, k_c, a_c) = E.ghost["covers"][f0.get_id()]
+            had, changed = bE.has(f0), bE.changed(f0)
+            conflict = z3.Not(pyeq(bE.field(f0, K_METADATA), stat_of(E, f0)))
+            Lf = bE.logical(f0)
+            fault = z3.Select(st.g["IoFault"], f0)
+            untouched = z3.And(entry_same(bE, bS, f0), file_same(E, st, f0), z3.Not(fault))
+            if bE.strategy == "shared":
+                ca = Val.addr(bE.field(f0, K_CONTENTS))
+                untouched = z3.And(untouched, z3.Implies(had, st.sel("CView", ca) == E.sel("CView", ca)))
+                clean = z3.And(bS.has(f0), z3.Not(bS.modified(f0)), bS.wellformed(f0),
+                               bs.dict_get(bS.B, f0) == bs.dict_get(bE.B, f0),
+                               bS.field(f0, K_CONTENTS) == bE.field(f0, K_CONTENTS))
+                settled_ = z3.If(z3.And(forced, had), clean, z3.Not(bS.has(f0)))
+            else:
+                settled_ = z3.Not(bS.has(f0))
+            kept = z3.And(st.sel("FS", f0) == E.sel("FS", f0), st.sel("Res", f0) == E.sel("Res", f0))
+            done = z3.And(settled_,
+                          z3.Implies(z3.Not(had), kept),
+                          z3.Implies(z3.And(had, z3.Not(changed)), kept),
+                          z3.Implies(z3.And(had, changed, conflict), z3.And(kept, bs.dict_has(iss, f0))),
+                          z3.Implies(z3.And(had, changed, z3.Not(conflict), z3.Not(fault)), pyeq(st.sel("Res", f0), Lf)))
+            # (after an injected I/O fault at f0 nothing is claimed about f0 except that the fault is reported)
+            out.append(("f0:untouched-or-done", z3.Or(untouched, done, fault)))
+            out.append(("f0:cover-still-registered", z3.Implies(z3.And(forced, had, z3.Not(done), z3.Not(fault)),
+                                                                cover_in(R, k_c, a_c))))
+            out.append(("f0:cover-retained", z3.Implies(z3.And(bS.has(f0), z3.Not(cover_in(R, k_c, a_c)), z3.Not(fault)),
+                                                        cover_in(rem, k_c, a_c))))
+            out.append(("f0:fault-recorded", z3.Implies(fault, bs.dict_has(iss, f0))))
+        return out
+
+    def iteration_facts(self, L, st, i):
+        E, cn, bE, bS, forced, retain = self.parts(L, st)
+        R = bS.reg
+        pair = bs.dict_popitem_pair(R)
+        v = F("unpack2_1", Val, Val)(pair)
+        k = F("unpack2_0", Val, Val)(pair)
+        # Inv.registry: the key of a member is its id()
+        out = [z3.Implies(bs.dict_len(R) > 0, z3.And(member_facts(L.eng, st, cn, v), k == VInt(Val.addr(v)))),
+               bs.dict_len(R) >= 0]
+        for f0 in E.ghost.get("skolem_files", []):
+            (_, k_c, a_c) = E.ghost["covers"][f0.get_id()]
+            # Inv.registry at the cover: if it is still registered it is a member like any other
+            out.append(z3.Implies(cover_in(R, k_c, a_c), member_facts(L.eng, st, cn, VRef(a_c))))
+            # Inv.buffer: a present entry is well-formed (as assumed at every read of the buffer)
+            out.append(z3.Implies(bS.has(f0), bS.wellformed(f0)))
+        return out
 
 
 def register(eng):
     eng.contracts["FileBufferedCollection._flush_buffer"] = FlushBufferContract()
+    eng.loop_specs[("FileBufferedCollection._flush_buffer", 1)] = FlushBufferLoop()
+    eng.flush_contract = FlushContract()
+    eng.virtual["_flush"] = eng.flush_contract
+
+    def v_filename(eng_, st, obj):
+        f = z3.Select(st.g["NodeFile"], Val.addr(obj.term))
+        return [(st, Z(f, "str", {"plain": True}))]
+
+    def v_is_buffered(eng_, st, obj):
+        cn = obj.meta["registered_of"]
+        bobj = z3.Select(st.g["NodeBuf"], Val.addr(obj.term))
+        bctx = as_int(st.rec(st.statics[(cn, "_buffer_context")]).fields["_count"])
+        return [(st, Bv(z3.Or(bobj > 0, bctx > 0)))]
+
+    eng.virtual_attrs["_filename"] = v_filename
+    eng.virtual_attrs["_is_buffered"] = v_is_buffered
